@@ -56,7 +56,7 @@ def check_events(ctx, p, m0, m, n_expected, what, tol=TOL):
         for i in range(len(arr)):
             for j in range(i + 1, len(arr)):
                 mmin = np.minimum(mmin, np.sqrt(np.maximum(kin.mass2(arr[i] + arr[j]), 0.0)))
-        tol = tol * np.maximum(1.0, 1e-2 * m0 / np.maximum(mmin, 1e-300))
+        tol = tol * np.maximum(1.0, (3e-2 * m0 / np.maximum(mmin, 1e-300)) ** 2)  # backward-emitted daughters: E'(1-beta) cancels to eps*gamma^2
         tol = np.minimum(tol, 1e-7)
     ctx.check(np.all(np.abs(tot[:, 0] - m0) <= tol * m0), "energy_conservation", "%s: max |sum E - m0|/m0 = %.3e" % (what, float(np.max(np.abs(tot[:, 0] - m0)) / m0)))
     ctx.check(np.all(np.abs(tot[:, 1:]) <= (tol[:, None] if np.ndim(tol) else tol) * m0), "momentum_conservation", "%s: max |sum p|/m0 = %.3e" % (what, float(np.max(np.abs(tot[:, 1:])) / m0)))
